@@ -62,7 +62,22 @@ def check(ctx):
         ent = cat.get("dataReceived")
         if ent is None:
             raise AnalysisError("anchor vanished: dataReceived")
-        p0 = ent.paths[0]
+        # the outer paths differ in how the function is left; the one that reaches the framing loop is the one to read - but a way
+        # out of the framer that bypasses the loop is itself a finding: whether a chunk is framed then depends on something else
+        p0 = next((p for p in ent.paths if any(e.kind == "LOOP" for e in p.events)), ent.paths[0])
+        for px in ent.paths:
+            if px is not p0 and not any(e.kind == "LOOP" for e in px.events) and px.exit_kind() != "raise":
+                extx = [e for e in px.events if e.kind == "MCALL" and e.a["name"] == "extend"]
+                own = px.conds[len(extx[0].conds):] if extx else px.conds
+                carry_obj = extx[0].a["obj"] if extx else None
+                other = [s for c in own for s in subterms(c.term) if isinstance(s, tuple) and s[:2] == ("attr", SELF) and s != carry_obj]
+                if not other:
+                    continue      # a way out decided by the buffered bytes alone (too few to start a packet) is what the loop does anyway
+                ctx.ob("F5", "%s every chunk reaches the framing loop" % cq, False, where="%s:%d" % (own[-1].file, own[-1].line) if own else "%s:%d" % (ent.func.file, ent.func.node.lineno),
+                       function=ent.func.qual, construct="%s/bypasses-the-loop" % ent.func.qual,
+                       msg="dataReceived can return without framing what is buffered (under %s): complete packets sit in the buffer until "
+                           "some later chunk arrives - dispatch depends on how the stream was cut" % [repr(c) for c in own][-2:])
+                break
         ext = [e for e in p0.events if e.kind == "MCALL" and e.a["name"] == "extend"]
         loops = [e for e in p0.events if e.kind == "LOOP"]
         w0 = "%s:%d" % (ent.func.file, ent.func.node.lineno)
